@@ -76,6 +76,9 @@ PROPS = {
         'fslog': True,
         'mc_quick': ['MC_quick_clean.cfg'], 'mc_thorough': [('MC_tiny.cfg', 600)],
         'title': 'Foreign files',
+        # threads that overwrite foreign files / old outputs and a rollback, with a yield point at every executed line of
+        # the backup store, the directory bookkeeping and the cache tables (all single preemptions)
+        'thread_units': (6, 60, 0, 0, 0, 0), 'thread_profile': 'threadsfl',
         'units': [('swap', 1200, 15000), ('subcache', 400, 5000), ('foreign', 1500, 30000), ('forcrash', 1500, 30000), ('clean', 400, 8000),
                   ('crash', 300, 5000), ('selfnest', 800, 10000)],
         'owned': {'ForeignUntouched'},
@@ -221,7 +224,8 @@ PROPS = {
         'full_pairs': (12, 150),                     # two-thread histories whose (k1, k2) preemption pairs are all enumerated
         # concurrent rebuilds of existing outputs followed by a rollback: profile, histories q/t, singles q/t (0 = all),
         # pairs q/t, fully enumerated histories q/t
-        'thread_extra': [('threadsrb', 40, 500, 0, 0, 2, 10, 2, 30), ('threadsq', 60, 600, 8, 0, 2, 8, 6, 40)],
+        'thread_extra': [('threadsrb', 40, 500, 0, 0, 2, 10, 2, 30), ('threadsq', 60, 600, 8, 0, 2, 8, 6, 40),
+                         ('threadsrbl', 6, 60, 0, 0, 0, 0, 0, 0)],
         'units': [('regress', 0, 0)],
         'owned': set(CLAUSE_OWNER) | {'NoDeadlock', 'LockOrderAcyclic', 'LockOrderDocumented', 'LockOrderSameRole', 'CleanupRemovesOwnDirsOnly'},
         'nontrivial': lambda st, sc: any(x.get('s') == 'par' and (x.get('preempt') or x.get('rseed') is not None)
